@@ -702,3 +702,9 @@ def _rename_key_rule(ctx, mpq):
     else:
         ctx.bad(R, "rename_file|key-follows-name", f.where, "rename_file moves the hash entry of any file: no test of the encryption flag precedes the first table mutation and nothing re-encrypts the data",
                 "an encrypted file stays encrypted under the key of its old name; read under the new name it decrypts to garbage (or fails to decompress) although rename reported success")
+
+
+def run_extra(ctx):
+    """rules armed after run(): shared rules that need nothing from run()'s locals"""
+    from ..shared import setters_keep_other_settings_rule
+    setters_keep_other_settings_rule(ctx, [ctx.prog.crate(c) for c in ["wow_mpq"]], "C06", "modification::AddFileOptions$", floor=3)
